@@ -1,7 +1,8 @@
 """C19 — device types, categories, classes and ports are mutually consistent."""
 import common as C
 
-RULE = ("exhaustive: all 9 device types x all 4 device classes constructed for real (36), every type's category ports from "
+RULE = ("exhaustive: all 9 device types x all 4 device classes constructed for real (36; then again in reverse and shuffled orders, since a "
+        "guard must not depend on earlier constructions), every type's category ports from "
         "both port tables, the set of model codes; non-trivial = distinct (class, type, accepted) triples and distinct "
         "(type, ports) rows")
 ASSUMPTIONS = ["the tables the theorems are about are regenerated from the working tree on every run (Gen.Tables, Gen.Guards)",
@@ -74,6 +75,14 @@ def streams(ctx):
     types = [t.name for t in d.DeviceType]
     classes = ["SwitcherPowerPlug", "SwitcherWaterHeater", "SwitcherThermostat", "SwitcherShutter"]
     ctx.run_cases(CONSTRUCT, "all-class-x-type-constructions", [(c, t) for c in classes for t in types], exhaustive=True, sample_every=7)
+    # the guards must not depend on what was constructed before: the same 36 pairs again in reverse and in shuffled orders
+    pairs = [(c, t) for c in classes for t in types]
+    again = list(reversed(pairs))
+    for _ in range(ctx.n(20, 300)):
+        q = pairs[:]
+        ctx.rng.shuffle(q)
+        again += q
+    ctx.run_cases(CONSTRUCT, "constructions-in-other-orders", again, exhaustive=False, sample_every=97)
     ctx.run_cases(PORTS, "ports-of-every-type", types, exhaustive=True)
     ctx.run_cases(CODES, "model-codes", [0], exhaustive=True)
 
